@@ -94,6 +94,10 @@ func (f *FnVC) mapUpdate(st *State, x *ssa.MapUpdate) {
 	if f.checks["nil"] {
 		f.oblige("nilmap", f.srcKey(x.Pos()), st, not(eq(m.T, Term{"0", SRef})), x.Pos(), "assignment to entry in nil map")
 	}
+	// contract hook: `at-call mapupdate: assert ...` with arg0 = map, arg1 = key, arg2 = value
+	if f.Ct != nil && len(f.Ct.AtCalls) > 0 {
+		f.noteSiteRaw(st, "mapupdate", []Val{m, k, v}, x.Pos())
+	}
 	f.mapStore(st, m.T, mt, f.mapKey(k), &v.T)
 }
 
@@ -142,6 +146,8 @@ func (f *FnVC) next(st *State, x *ssa.Next) {
 		return
 	}
 	f.guardedObjCheck(st, it, false, x.Pos())
+	// a nil map has no entries to iterate
+	f.assume(st, implies(ok, not(eq(it.T, Term{"0", SRef}))))
 	var kv, vv Val
 	ksort := f.mapKeySort(mt.Key())
 	if ksort == SInt && f.TE.Sort(mt.Key()) == SStr {
